@@ -1466,7 +1466,7 @@ class BADS:
             yval_vec = np.empty(self.options["noise_final_samples"])
             ysd_vec = np.empty(self.options["noise_final_samples"])
             for i_sample in range(self.options["noise_final_samples"]):
-                y, y_sd, _ = self.function_logger(
+                y, y_sd, idx_u = self.function_logger(
                     self.u, record_duplicate_data=False
                 )
                 yval_vec[i_sample] = y
@@ -1478,9 +1478,7 @@ class BADS:
                     ysd_vec = np.vstack(
                         (
                             ysd_vec,
-                            self.function_logger.S[
-                                self.function_logger.Xn
-                            ],
+                            self.function_logger.S[idx_u],
                         )
                     )
 
